@@ -55,7 +55,13 @@ def main():
         try:
             shutil.copytree("/repo/sigpy", os.path.join(scratch, "sigpy"),
                             ignore=shutil.ignore_patterns("__pycache__"))
-            apply_mutant(m, scratch)
+            try:
+                apply_mutant(m, scratch)
+            except RuntimeError as ex:
+                print("%-40s STALE pattern: %s" % (m["id"], ex))
+                results.append({"id": m["id"], "world": m["world"], "caught": False, "expect": "stale", "exit": None,
+                                "wall_s": 0, "invariants": [], "note": str(ex)[:200]})
+                continue
             cmd = [os.path.join(HERE, "check"), m["world"], "--root", scratch,
                    "--no-evidence", "--tier", args.tier]
             if args.sessions:
@@ -91,7 +97,7 @@ def main():
     if not (args.world or args.id):
         with open(os.path.join(HERE, "tools", "mutants_last_result.json"), "w") as f:
             json.dump({"results": results}, f, indent=1, sort_keys=True)
-    missed = [r["id"] for r in results if not r["caught"] and r["expect"] == "caught"]
+    missed = [r["id"] for r in results if not r["caught"] and r["expect"] in ("caught", "stale")]
     print("mutants: %d, caught: %d, missed: %s" % (len(results), len(results) - len(missed), missed))
     return 1 if missed else 0
 
